@@ -314,8 +314,10 @@ class Table:
 
 def get_head_tail(tbl: Table) -> tuple[pl.DataFrame, int]:
     import pydiverse.transform as pdt
-    from pydiverse.transform._internal.pipe.verbs import export, slice_head, summarize
+    from pydiverse.transform._internal.pipe.verbs import export, slice_head, summarize, ungroup
 
+    # (the grouping of the table does not matter for printing)
+    tbl = tbl >> ungroup()
     height = tbl >> summarize(num_rows=pdt.count()) >> export(pdt.Scalar)
     tbl_rows = int(pl.Config.state().get("POLARS_FMT_MAX_ROWS") or 10)
     if height <= tbl_rows:
